@@ -249,6 +249,35 @@ func (p *Program) Func(name string) *ssa.Function {
 			return nil
 		}
 		fn = sp.Func(fname)
+		if fn == nil {
+			// bare method name: unique method of that name on any type of the package
+			var found []*ssa.Function
+			names := sp.Pkg.Scope().Names()
+			for _, n := range names {
+				tn, ok := sp.Pkg.Scope().Lookup(n).(*types.TypeName)
+				if !ok {
+					continue
+				}
+				if _, isIface := tn.Type().Underlying().(*types.Interface); isIface {
+					continue
+				}
+				seen := map[*ssa.Function]bool{}
+				for _, T := range []types.Type{tn.Type(), types.NewPointer(tn.Type())} {
+					sel := pp.SSA.MethodSets.MethodSet(T).Lookup(sp.Pkg, fname)
+					if sel == nil {
+						continue
+					}
+					m := pp.SSA.MethodValue(sel)
+					if m != nil && m.Synthetic == "" && !seen[m] {
+						seen[m] = true
+						found = append(found, m)
+					}
+				}
+			}
+			if len(found) == 1 {
+				fn = found[0]
+			}
+		}
 	}
 	if fn == nil {
 		return nil
